@@ -109,6 +109,16 @@ Fixpoint take (n : nat) (l : list Z) : option (list Z * list Z) :=
     end
   end.
 
+(* the same with the count in Z (no unary number is built: a garbage jumbo size field of 4e9 must
+   not cost 4e9 steps); structural on the list; n <= 0 takes nothing *)
+Fixpoint takez (l : list Z) (n : Z) {struct l} : option (list Z * list Z) :=
+  if n <=? 0 then Some ([], l)
+  else
+    match l with
+    | [] => None
+    | x :: r => match takez r (n - 1) with Some (a, b) => Some (x :: a, b) | None => None end
+    end.
+
 (* Strict parser of a succession of events: reserved flag bits must be zero and a
    jumbo event carries the size nibble 3 (a 4-byte size field).  Every step
    consumes at least 12 bytes, so fuel = S (length bs) is always enough
@@ -130,7 +140,7 @@ Fixpoint parse (fuel : nat) (bs : list Z) : pres :=
             match take 4 rest2 with
             | None => PBad
             | Some (sb, rest3) =>
-              match take (Z.to_nat (le_val sb)) rest3 with
+              match takez rest3 (le_val sb) with
               | None => PBad
               | Some (d, rest4) => pcons (mkU true m c v clk d) (parse f rest4)
               end
